@@ -27,6 +27,8 @@ type Case struct {
 	Cut     int      `json:"cut"`     // -1: log intact; else byte offset (mod line length) at which the last WAL line is cut
 	Rotate  int      `json:"rotate"`  // -1: never; else the WAL head is rotated after that many ops
 	Second  int      `json:"second"`  // -1: one crash; else crash again after that many fair steps and compare again
+	PartSz  int      `json:"part_size"` // block part size (0 = 512)
+	TxBytes int      `json:"tx_bytes"`  // size of a transaction queued at every proposer (0 = none): makes WAL records large
 }
 
 var opKinds = []string{
@@ -67,6 +69,11 @@ func genCase(t *rapid.T) Case {
 	if rapid.IntRange(0, 2).Draw(t, "secondp") == 0 {
 		c.Second = rapid.IntRange(0, 40).Draw(t, "second")
 	}
+	c.PartSz = rapid.SampledFrom([]int{512, 512, 4096, 65536}).Draw(t, "partSize")
+	c.TxBytes = rapid.SampledFrom([]int{0, 0, 300, 3000, 9000}).Draw(t, "txBytes")
+	if c.Cut >= 0 && c.TxBytes > 0 {
+		c.Cut = rapid.IntRange(0, 40000).Draw(t, "cutBig") // offsets deep inside a large record
+	}
 	return c
 }
 
@@ -101,8 +108,18 @@ func cutLastLine(path string, j int) (string, bool) {
 func runCase(c Case, x *h.Ctx) {
 	dir, doneDir := sim.TempDir("c07-")
 	defer doneDir()
-	net := sim.New(sim.Config{Powers: c.Powers, Dir: dir, RepairProposer: c.Repair})
+	net := sim.New(sim.Config{Powers: c.Powers, Dir: dir, RepairProposer: c.Repair, PartSize: c.PartSz})
 	defer net.Close()
+	if c.TxBytes > 0 {
+		for _, n := range net.Honest() {
+			tx := make([]byte, c.TxBytes)
+			for i := range tx {
+				tx[i] = byte(i*7 + n.ID)
+			}
+			n.Pool.Push(tx)
+		}
+		x.Label("large-wal-records")
+	}
 	d := sim.NewDriver(net)
 	d.LogOn = x.Replaying
 	sub := net.Nodes[c.Subject%len(net.Nodes)]
